@@ -393,6 +393,61 @@ theorem c07_sample_group_eq_spec_partial (c : Cfg) (hl : c.limits.have_ ≤ c.li
     sgDef c ns d = specSgDef c.infl ns.style ns.pfx.denote d := by
   rw [sgDef_eq c hl ns d hwf, specSgDef_erase c.infl ns.style ns.pfx.denote d hfree]
 
+/-! ## Exactly one item per present, non-ignored field -/
+
+theorem observe_isSome (infl : Infl) (v : FVal) : (observe infl v).isSome = v.isPresent := by
+  induction v with
+  | absent => rfl
+  | num => rfl
+  | str => rfl
+  | variant => rfl
+  | newtype inner u ih => simp [observe, FVal.isPresent, ih]
+  | some inner ih => simp [observe, FVal.isPresent, ih]
+
+theorem fieldObs_isSome (infl : Infl) (u : Option Str) (v : FVal) :
+    (fieldObs infl u v).isSome = v.isPresent := by
+  simp [fieldObs, observe_isSome]
+
+mutual
+theorem specDef_length (infl : Infl) (st : Style) (ch : Str) : (d : Def) →
+    (specDef infl st ch d).length = countDef d
+  | .struct a fs => by
+    simp only [specDef, countDef]
+    exact specFields_length infl _ ch a fs
+  | .enum a tag vi vn tuple fs => by
+    simp only [specDef, countDef, List.length_append, specFields_length infl _ ch a fs]
+    cases tag <;> rfl
+theorem specFields_length (infl : Infl) (st : Style) (ch : Str) (a : Attrs) : (fs : Fields) →
+    (specFields infl st ch a fs).length = countFields fs
+  | .nil => rfl
+  | .cons f fs => by
+    simp only [specFields, countFields, List.length_append, specField_length infl st ch a f,
+      specFields_length infl st ch a fs]
+theorem specField_length (infl : Infl) (st : Style) (ch : Str) (a : Attrs) : (f : Field) →
+    (specField infl st ch a f).length = countField f
+  | .plain ident ov unit sg v => by
+    simp only [specField, countField]
+    have h := fieldObs_isSome infl unit v
+    cases hv : fieldObs infl unit v with
+    | none => rw [hv] at h; simp [← h]
+    | some o => rw [hv] at h; simp [← h]
+  | .ignore => rfl
+  | .timestamp => rfl
+  | .flatten p present child => by
+    simp only [specField, countField]
+    cases present with
+    | false => rfl
+    | true => simpa using specDef_length infl st _ child
+  | .flattenEntry items sg => rfl
+end
+
+/-- **C07 (count).** The emitted entry has exactly one item per tag and per present, non-ignored
+plain field, transitively through present flattened children (plus the items of `flatten_entry`
+fields verbatim); ignored fields, timestamps and absent `Option`s contribute nothing. -/
+theorem c07_one_item_per_field (c : Cfg) (hl : c.limits.have_ ≤ c.limits.match_) (ns : NS) (d : Def)
+    (hwf : wfDef d = true) : (expandDef c ns d).length = countDef d := by
+  rw [c07_expansion_eq_spec c hl ns d hwf, specDef_length]
+
 /-! ## Non-vacuity and the witness of the known finding -/
 
 /-- a toy inflector that marks which style was applied -/
@@ -426,7 +481,8 @@ def exRoot : Def :=
      .cons (.flatten (some (.exact ['E', ':'])) true exChild) .nil)
 
 /-- the tree meets the hypotheses of the item theorem, not of the partial sample-group theorem -/
-example : wfDef exRoot = true ∧ sgPrefixFree exRoot = false ∧ sgPrefixFree exGrand = true := by decide
+example : wfDef exRoot = true ∧ sgPrefixFree exRoot = false ∧ sgPrefixFree exGrand = true
+    ∧ countDef exRoot = 5 := by decide
 
 /-- the emission is non-trivial: 5 items over three levels, names up to 9 bytes with limit 4 (so the
 heap path of `const_str_value` is taken), inherited Pascal in the child, snake in the grandchild -/
@@ -455,5 +511,6 @@ end Naming
 #print axioms Naming.c07_expansion_eq_spec
 #print axioms Naming.c07_limits_consistent
 #print axioms Naming.c07_root_entry_eq_spec
+#print axioms Naming.c07_one_item_per_field
 #print axioms Naming.c07_sample_group_erases_flatten_prefix
 #print axioms Naming.c07_sample_group_eq_spec_partial
